@@ -320,4 +320,39 @@ theorem validated_inRange {bs : List Nat} {t : Option EofValidate.CodeType} {e :
       rw [htl]
       exact sectionOk_inRange hbytes (hc.sections k sec hk) hi
 
+/-! ## conversely: every instruction start of C26's decoding is a boundary of C25's scan -/
+
+theorem reach_scan {sec : List Nat} (hb : ∀ b ∈ sec, b < 256) {a b : Nat}
+    (hr : Spec.Eof.Reach sec.toArray a b) (hlt : b < sec.length) :
+    ∀ f, sec.length + 1 ≤ a + f → b ∈ scan sec f a := by
+  induction hr with
+  | refl i =>
+    intro f hf
+    cases f with
+    | zero => omega
+    | succ f => unfold scan; rw [if_pos hlt]; exact List.mem_cons_self ..
+  | @step i j hi hr ih =>
+    intro f hf
+    rw [List.size_toArray] at hi
+    cases f with
+    | zero => omega
+    | succ f =>
+      unfold scan
+      rw [if_pos hi]
+      refine List.mem_cons_of_mem _ ?_
+      by_cases hc : i + 1 < sec.length ∨ sec[i] ≠ 0xe2
+      · rw [instrLen_eq hb hi hc]
+        have e : i + (1 + Spec.Eof.immLen sec.toArray i) = i + 1 + Spec.Eof.immLen sec.toArray i := by omega
+        rw [e]
+        exact ih hlt f (by omega)
+      · -- RJUMPV in the last byte: nothing is reachable behind it inside the section
+        exfalso
+        have hle := reach_le hr
+        omega
+
+theorem isInstrStart_boundary {sec : List Nat} (hb : ∀ b ∈ sec, b < 256) {i : Nat}
+    (h : Spec.Eof.IsInstrStart sec.toArray i) : i ∈ boundaries sec := by
+  have hlt : i < sec.length := by have := h.2; rw [List.size_toArray] at this; exact this
+  exact reach_scan hb h.1 hlt _ (by omega)
+
 end Revm.Proofs.Interp
